@@ -7,6 +7,7 @@ package tiny
 // the size sums (size == number of members). Comments only; compiled only with the build tag `verif`.
 
 //@ arith int
+//@ index elt
 //@ property C04
 //@ assumption capacities are >= 0 (every entry counts 1); the eviction counter stays below 2^63
 //
@@ -244,3 +245,55 @@ package tiny
 //@   requires widewf(w)
 //@   ensures #forwarded result <==> cs(has(w.ls[shardOf(key)].table, key))
 //@   modifies everything()
+//
+// ---- Keys / Items: the listing is the rank order of the list (most recently used first). Stated without counting:
+// every listed key is a member's key, listed keys are strictly increasing in rank, the first has the least rank, no
+// member lies strictly between two consecutive listed ones, and none lies after the last - so the listing is exactly the
+// successor chain from the front to the back of the recency order (that a finite chain from min to max enumerates every
+// member is the remaining meta-step). The cache is unchanged.
+// Element.Next: ASSUMED (container/list) to return the next element of the element's own list; `walk` names the list being
+// walked (an element belongs to at most one list).
+//@ ghost walk *list.List
+//@ func extern container/list.Element.Next(e)
+//@   requires #nonnil e != nil
+//@   ensures walk != nil && walk.lmem[e] ==> (result == nil ==> forall x *list.Element :: { walk.lmem[x] } walk.lmem[x] ==> x.lrk <= e.lrk) && (result != nil ==> walk.lmem[result] && e.lrk < result.lrk && forall x *list.Element :: { walk.lmem[x] } walk.lmem[x] && e.lrk < x.lrk ==> result.lrk <= x.lrk)
+//@   modifies
+//@ pure krk(c *LRUCache, k interface{}) int = c.table[k].lrk
+//@ func LRUCache.Keys
+//@   requires !held(lru.mu)
+//@   aftercall Front walk = lru.list
+//@   ensures #members forall j int :: { result[j] } 0 <= j && j < len(result) ==> has(lru.table, result[j]) && lru.list.lmem[lru.table[result[j]]]
+//@   ensures #order forall a int, b int :: { result[a], result[b] } 0 <= a && a < b && b < len(result) ==> krk(lru, result[a]) < krk(lru, result[b])
+//@   ensures #first len(result) > 0 ==> forall x *list.Element :: { lru.list.lmem[x] } lru.list.lmem[x] ==> krk(lru, result[0]) <= x.lrk
+//@   ensures #nogap forall j int, x *list.Element :: { result[j], lru.list.lmem[x] } 0 <= j && j + 1 < len(result) && lru.list.lmem[x] ==> x.lrk <= krk(lru, result[j]) || krk(lru, result[j+1]) <= x.lrk
+//@   ensures #last forall x *list.Element :: { lru.list.lmem[x] } lru.list.lmem[x] ==> len(result) > 0 && x.lrk <= krk(lru, result[len(result)-1])
+//@   ensures #unchanged unchanged(lru)
+//@   modifies walk, region($alloc), LRUCache.list, LRUCache.table, LRUCache.size, LRUCache.capacity, LRUCache.evictions, mapsof(lru.table), list.List.lmem, list.List.lcnt, list.Element.lrk, list.Element.Value, entry.key, entry.value
+//@   loop 1
+//@     invariant #state wheld(lru.mu) && ri(lru) && unchanged(lru) && walk == lru.list && (e == nil || lru.list.lmem[e]) && nalloc() >= old(nalloc())
+//@     invariant #members forall j int :: { keys[j] } 0 <= j && j < len(keys) ==> has(lru.table, keys[j]) && lru.list.lmem[lru.table[keys[j]]]
+//@     invariant #order forall a int, b int :: { keys[a], keys[b] } 0 <= a && a < b && b < len(keys) ==> krk(lru, keys[a]) < krk(lru, keys[b])
+//@     invariant #below e != nil ==> forall j int :: { keys[j] } 0 <= j && j < len(keys) ==> krk(lru, keys[j]) < e.lrk
+//@     invariant #tight forall x *list.Element :: { lru.list.lmem[x] } lru.list.lmem[x] ==> (e != nil && e.lrk <= x.lrk) || (len(keys) > 0 && x.lrk <= krk(lru, keys[len(keys)-1]))
+//@     invariant #first len(keys) > 0 ==> forall x *list.Element :: { lru.list.lmem[x] } lru.list.lmem[x] ==> krk(lru, keys[0]) <= x.lrk
+//@     invariant #nogap forall j int, x *list.Element :: { keys[j], lru.list.lmem[x] } 0 <= j && j + 1 < len(keys) && lru.list.lmem[x] ==> x.lrk <= krk(lru, keys[j]) || krk(lru, keys[j+1]) <= x.lrk
+//@ func LRUCache.Items
+//@   requires !held(lru.mu)
+//@   aftercall Front walk = lru.list
+//@   ensures #members forall j int :: { result[j].Key } 0 <= j && j < len(result) ==> has(lru.table, result[j].Key) && lru.list.lmem[lru.table[result[j].Key]]
+//@   ensures #order forall a int, b int :: { result[a].Key, result[b].Key } 0 <= a && a < b && b < len(result) ==> krk(lru, result[a].Key) < krk(lru, result[b].Key)
+//@   ensures #first len(result) > 0 ==> forall x *list.Element :: { lru.list.lmem[x] } lru.list.lmem[x] ==> krk(lru, result[0].Key) <= x.lrk
+//@   ensures #nogap forall j int, x *list.Element :: { result[j].Key, lru.list.lmem[x] } 0 <= j && j + 1 < len(result) && lru.list.lmem[x] ==> x.lrk <= krk(lru, result[j].Key) || krk(lru, result[j+1].Key) <= x.lrk
+//@   ensures #last forall x *list.Element :: { lru.list.lmem[x] } lru.list.lmem[x] ==> len(result) > 0 && x.lrk <= krk(lru, result[len(result)-1].Key)
+//@   ensures #values forall j int :: { result[j].Key } 0 <= j && j < len(result) ==> result[j].Value == ent(lru.table[result[j].Key]).value
+//@   ensures #unchanged unchanged(lru)
+//@   modifies walk, region($alloc), LRUCache.list, LRUCache.table, LRUCache.size, LRUCache.capacity, LRUCache.evictions, mapsof(lru.table), list.List.lmem, list.List.lcnt, list.Element.lrk, list.Element.Value, entry.key, entry.value
+//@   loop 1
+//@     invariant #state wheld(lru.mu) && ri(lru) && unchanged(lru) && walk == lru.list && (e == nil || lru.list.lmem[e]) && nalloc() >= old(nalloc())
+//@     invariant #members forall j int :: { items[j].Key } 0 <= j && j < len(items) ==> has(lru.table, items[j].Key) && lru.list.lmem[lru.table[items[j].Key]]
+//@     invariant #values forall j int :: { items[j].Key } 0 <= j && j < len(items) ==> items[j].Value == ent(lru.table[items[j].Key]).value
+//@     invariant #order forall a int, b int :: { items[a].Key, items[b].Key } 0 <= a && a < b && b < len(items) ==> krk(lru, items[a].Key) < krk(lru, items[b].Key)
+//@     invariant #below e != nil ==> forall j int :: { items[j].Key } 0 <= j && j < len(items) ==> krk(lru, items[j].Key) < e.lrk
+//@     invariant #tight forall x *list.Element :: { lru.list.lmem[x] } lru.list.lmem[x] ==> (e != nil && e.lrk <= x.lrk) || (len(items) > 0 && x.lrk <= krk(lru, items[len(items)-1].Key))
+//@     invariant #first len(items) > 0 ==> forall x *list.Element :: { lru.list.lmem[x] } lru.list.lmem[x] ==> krk(lru, items[0].Key) <= x.lrk
+//@     invariant #nogap forall j int, x *list.Element :: { items[j].Key, lru.list.lmem[x] } 0 <= j && j + 1 < len(items) && lru.list.lmem[x] ==> x.lrk <= krk(lru, items[j].Key) || krk(lru, items[j+1].Key) <= x.lrk
